@@ -150,6 +150,20 @@ Section C01.
     serve_nocache re_match re_replace ip_allow sv a = serve_nocache re_match re_replace ip_allow sv b /\
     (forall q, mk_key q a = mk_key q b).
   Proof. exact (rawpath_irrelevant re_match re_replace ip_allow). Qed.
+  (** the server option xForwardedFor does not influence routing (the router matches the request
+      as received, never the header the gateway itself writes); the handler sees the client
+      address appended to X-Forwarded-For: the address alone when the header was absent,
+      unchanged when it already contains the address, "v,addr" otherwise *)
+  Theorem C01_xff_option_irrelevant_for_routing : forall b sv rq,
+    serve_nocache re_match re_replace ip_allow (set_xff b sv) rq = serve_nocache re_match re_replace ip_allow sv rq.
+  Proof. exact (xff_option_irrelevant re_match re_replace ip_allow). Qed.
+
+  Theorem C01_forwarded_for : forall sv rq,
+    (sv_xff sv = false -> forwarded_for sv rq = hget "X-Forwarded-For" (rq_headers rq)) /\
+    (sv_xff sv = true -> alookup "X-Forwarded-For" (rq_headers rq) = None -> forwarded_for sv rq = rq_ip rq) /\
+    (sv_xff sv = true -> forall v, alookup "X-Forwarded-For" (rq_headers rq) = Some v -> v <> "" ->
+       forwarded_for sv rq = if str_contains (rq_ip rq) v then v else v ++ "," ++ rq_ip rq).
+  Proof. exact forwarded_for_spec. Qed.
 End C01.
 
 Print Assumptions C01_loop_refines_spec.
@@ -169,6 +183,8 @@ Print Assumptions C01_valid_never_panics.
 Print Assumptions C01_mapper_history_503.
 Print Assumptions C01_mapper_history_dispatch.
 Print Assumptions C01_rawpath_irrelevant.
+Print Assumptions C01_xff_option_irrelevant_for_routing.
+Print Assumptions C01_forwarded_for.
 
 (** non-vacuity: a concrete rule set on which the clauses are exercised:
     first match skips a header-conditioned entry, 400 / 405 / 404 / 503, prefix and regexp rewrite *)
@@ -186,7 +202,7 @@ Example C01_nonvacuous :
                                               e "" "/p/" "" [] "/q/" "C" [];
                                               e "" "" "^/r" [] "/s" "D" [];
                                               e "/h" "" "" [] "" "A" [ {| hc_key := "X"; hc_values := ["v1"]; hc_regexp := "" |} ] ] |} ];
-               sv_backends := ["A"; "B"; "C"]; sv_body := 0%Z |} in
+               sv_backends := ["A"; "B"; "C"]; sv_body := 0%Z; sv_xff := true |} in
   let rq h m p hs ip := {| rq_host := h; rq_method := m; rq_path := p; rq_rawpath := ""; rq_headers := hs; rq_ip := ip; rq_body := (if String.eqb m "PUT" then 3 else if String.eqb m "PATCH" then 5 else 0)%Z |} in
   valid_server sv = true /\
   map (serve_nocache re rep ipa sv)
